@@ -14,6 +14,7 @@ EXPLANATION = (
     "(6 kinds x 3 impl types) gives what `@` and `~` stand for. R3 (must-pass-through, taint over names): every read in expand.rs of a "
     "user-expression field (action, update, quick_return, default_case) reaches a template only as an argument of quote_action, or is a presence "
     "test. R4: try_parse_action's branch table (where an expression starts and ends).")
+EXPLANATION += ' R6 imports the nested-parent path contract (C03.R10): `~` of a nested #[parent] leaf is the source path through every enclosing member.'
 NOT_DECIDED = ["Delimiter::None groups are flattened (outside the statement's parentheses/brackets/braces)",
                "that proc-macro2 re-lexes the re-emitted Punct with identical spacing (library behaviour)"]
 
